@@ -528,6 +528,9 @@ impl Connection {
         let mut pad_datagram = false;
         let mut pad_datagram_to_mtu = false;
         let mut congestion_blocked = false;
+        // Whether the congestion check has been applied to the current datagram (or the datagram is
+        // a loss probe, which is exempt from it)
+        let mut datagram_congestion_checked = false;
 
         // Iterate over all spaces and find data to send
         let mut space_idx = 0;
@@ -745,6 +748,7 @@ impl Connection {
                 coalesce = true;
                 pad_datagram = false;
                 datagram_start = buf.len();
+                datagram_congestion_checked = ack_eliciting;
 
                 debug_assert_eq!(
                     datagram_start % segment_size,
@@ -754,6 +758,26 @@ impl Connection {
             } else {
                 // We can append/coalesce the next packet into the current
                 // datagram.
+                // The congestion check above only runs when a datagram is started. If the datagram
+                // was started by a packet that is not ack-eliciting (e.g. an Initial ACK),
+                // application data coalesced behind it has not been checked yet. Handshake packets
+                // are let through: they are small, and holding them back behind (0-RTT) data that
+                // cannot be acknowledged before the handshake completes would stall the connection.
+                if ack_eliciting
+                    && space_id == SpaceId::Data
+                    && !datagram_congestion_checked
+                    && self.spaces[space_id].loss_probes == 0
+                {
+                    // Assume the datagram will get padded to fill its capacity
+                    let bytes_to_send = (buf_capacity - datagram_start) as u64;
+                    if self.path.in_flight.bytes + bytes_to_send >= self.path.congestion.window() {
+                        space_idx += 1;
+                        congestion_blocked = true;
+                        trace!("blocked by congestion control");
+                        continue;
+                    }
+                }
+                datagram_congestion_checked |= ack_eliciting && space_id == SpaceId::Data;
                 // Finish current packet without adding extra padding
                 if let Some(builder) = builder_storage.take() {
                     builder.finish_and_track(now, self, sent_frames.take(), buf);
